@@ -63,7 +63,8 @@ def handle (j : Json) : Except String Json := do
     let fs ← fsOfJson (← j.getObjVal? "fs")
     let top ← strList (← j.getObjVal? "top")
     match flatten fs top with
-    | .ok st => pure (okJson [("lines", strs st.out), ("abort", Json.bool st.abort), ("defs", strs st.defs)])
+    | .ok st => pure (okJson [("lines", strs st.out), ("abort", Json.bool st.abort), ("defs", strs st.defs),
+                              ("well_formed", Json.bool (wellFormed fs top))])
     | .error e => pure (errJson e)
   | "expand" =>
     -- the specification of the molecule list
